@@ -102,7 +102,10 @@ def gen_case(R, tier):
   return {"mode": "cl", "cls": name, "kind": kind, "cap": cap, "offers": gen_offers(inp, ncyc, cap),
           "sched": [s.choice(("default", "default_s2", "mamba", "mamba_s2", "simple", "simple_s2", "forced",
                               "adversarial")), s.getrandbits(32)],
-          "hash_seed": R.sub_seed("hash"), "uid": "q%x" % (R.seed & 0xffffff)}
+          "hash_seed": R.sub_seed("hash"), "uid": "q%x" % (R.seed & 0xffffff),
+          # the consumer looks at the head through peek() before it dequeues (peek adds M() constraints of its
+          # own, so only some of the cases use it)
+          "use_peek": R("peek").random() < 0.4}
 
 
 def entry_type(name):
@@ -361,7 +364,7 @@ class Top_{uid}(Component):
         rdy = s.q.deq.rdy()
         log.append(("deq_rdy", t, bool(rdy)))
         if rdy:
-          log.append(("deq", t, s.q.deq()))
+{peek}          log.append(("deq", t, s.q.deq()))
 
     @update_once
     def clock():
@@ -380,7 +383,8 @@ def run_cl(case):
            "probes": {"pipe_enq_when_full": 0, "bypass_deq_when_empty": 0, "simultaneous_enq_deq": 0,
                       "reached_full": 0, "wrapped_nonpow2": 0}}
   seams.set_hash_stream(case["hash_seed"])
-  src = CL_SRC.format(cls=case["cls"], uid=case["uid"])
+  src = CL_SRC.format(cls=case["cls"], uid=case["uid"],
+                      peek='          log.append(("peek", t, s.q.peek()))\n' if case.get("use_peek") else "")
   ns, cls, _ = emit.build({"uid": case["uid"], "top": "Top"}, src=src)
   log = []
   offers = [tuple(o) for o in case["offers"]]
@@ -426,6 +430,10 @@ def run_cl(case):
       break
     if view["deq_fire"] and evs.get("deq") != view["head"]:
       viols.append(C.viol("cl_head", {"cycle": t, "got": evs.get("deq"), "want": view["head"],
+                                      "cls": case["cls"], "sched": sched}, cls=case["cls"]))
+      break
+    if view["deq_fire"] and "peek" in evs and evs["peek"] != view["head"]:
+      viols.append(C.viol("cl_peek", {"cycle": t, "got": evs["peek"], "want": view["head"], "n": view["n"],
                                       "cls": case["cls"], "sched": sched}, cls=case["cls"]))
       break
     if view["enq_fire"] and evs.get("enq") != ctr:
